@@ -46,6 +46,10 @@ pub struct Case {
     pub top_link: bool,
     /// no bad links at all (strip dangling ones from the tree) so that success paths are exercised
     pub clean: bool,
+    /// bit 0: also pass --gitignore (no ignore file anywhere: must not change anything);
+    /// bit 1: the sources are given as the pattern 's/*' with --glob (every child of s is a source of its own)
+    #[serde(default)]
+    pub opts: u8,
 }
 
 pub fn strategy() -> BoxedStrategy<Case> {
@@ -59,8 +63,8 @@ pub fn strategy() -> BoxedStrategy<Case> {
         2 => any::<bool>().prop_map(Extra::CrossDirChain),
         1 => (prop_oneof![Just(40u16), Just(150u16), Just(300u16)], any::<bool>()).prop_map(|(d, l)| Extra::Deep(d, l)),
     ];
-    (prop::collection::vec(gent(NAMES.len(), true), 0..12), prop::collection::vec(extra, 0..3), common_flags(), any::<bool>(), prop::bool::weighted(0.15), prop::bool::weighted(0.6))
-        .prop_map(|(tree, extras, flags, dest_exists, top_link, clean)| Case { tree, extras, flags, dest_exists, top_link, clean })
+    (prop::collection::vec(gent(NAMES.len(), true), 0..12), prop::collection::vec(extra, 0..3), common_flags(), any::<bool>(), prop::bool::weighted(0.15), prop::bool::weighted(0.6), prop_oneof![5 => Just(0u8), 2 => Just(1u8), 2 => Just(2u8), 1 => Just(3u8)])
+        .prop_map(|(tree, extras, flags, dest_exists, top_link, clean, opts)| Case { tree, extras, flags, dest_exists: dest_exists || opts & 2 != 0, top_link, clean, opts })
         .boxed()
 }
 
@@ -169,11 +173,18 @@ pub fn build(c: &Case, root: &[u8]) -> (Vec<Ent>, Inv) {
     inv.recursive = true;
     inv.deref = true;
     inv.dest = b"d".to_vec();
+    inv.gitignore = c.opts & 1 != 0;
     if c.top_link {
         ents.push(Ent::link(b"stop", b"s"));
         inv.sources = vec![b"stop".to_vec()];
     } else {
         inv.sources = vec![b"s".to_vec()];
+    }
+    // (the glob crate never matches names that are not UTF-8: not this property's business)
+    let utf8_children = ents.iter().all(|e| !(e.path.starts_with(b"s/") && !e.path[2..].contains(&b'/')) || std::str::from_utf8(&e.path).is_ok());
+    if c.opts & 2 != 0 && !c.top_link && utf8_children {
+        inv.glob = true;
+        inv.sources = vec![b"s/*".to_vec()];
     }
     (ents, inv)
 }
@@ -218,6 +229,9 @@ pub fn judge(c: &Case, rec: &mut Rec) -> Verdict {
     }
     if c.extras.iter().any(|x| matches!(x, Extra::CrossDirChain(_))) {
         rec.class("cross-directory-relative-chain");
+    }
+    if c.opts != 0 {
+        rec.class(format!("opts|gitignore={}|glob-children={}|plan={}", c.opts & 1 != 0, inv.glob, match &plan { Plan::MustFail(_) => "mustfail", Plan::Copy(_) => "copy", _ => "other" }));
     }
     let leaves = c.extras.iter().any(|x| matches!(x, Extra::OutDir(_))) || pre.iter().any(|(p, m)| p.starts_with(b"s/") && m.link.as_deref().map(|l| l.contains("by/")).unwrap_or(false));
     match &plan {
@@ -307,6 +321,6 @@ impl Check for C13 {
         }
     }
     fn required_classes(&self, _tier: Tier) -> Vec<String> {
-        ["mustfail|dangling", "mustfail|link", "mustfail|directory", "chain40", "dirlinks=1", "leaves-source", "top_link=true", "cross-directory-relative-chain", "deep=150|via_link=true", "deep=300|"].iter().map(|s| s.to_string()).collect()
+        ["mustfail|dangling", "mustfail|link", "mustfail|directory", "chain40", "dirlinks=1", "leaves-source", "top_link=true", "cross-directory-relative-chain", "deep=150|via_link=true", "deep=300|", "opts|gitignore=true|glob-children=false|plan=copy", "opts|gitignore=false|glob-children=true|plan=mustfail", "opts|gitignore=false|glob-children=true|plan=copy"].iter().map(|s| s.to_string()).collect()
     }
 }
